@@ -135,6 +135,10 @@ def run_program(mode, prog):
                         r = D.load(list(h.bins), h.min, h.max)
                     env[op[1]] = r
                     out.append({"state": _state(mode, r)})
+                elif k == "loadb":
+                    r = D.load([(dec(mode, v), int(c)) for v, c in op[2]], dec(mode, op[3]), dec(mode, op[4]))
+                    env[op[1]] = r
+                    out.append({"state": _state(mode, r)})
                 elif k == "count_at":
                     r = D.count_at(env[op[1]], dec(mode, op[2]))
                     out.append({"ans": None if r is None else enc(mode, r)})
@@ -174,6 +178,9 @@ def coq_op(mode, op, ob, default_cap):
         return f"(OBulk {L.nat(op[1])} {ps} {L.primfloat(float.fromhex(ob['dmin']))} {L.primfloat(float.fromhex(ob['dmax']))})"
     if k == "load":
         return f"(OLoad {L.nat(op[1])} {L.nat(default_cap)})"
+    if k == "loadb":
+        bins = L.lst(L.pair(n(v), L.Z(c)) for v, c in op[2])
+        return f"(OLoadB {L.nat(op[1])} {L.nat(default_cap)} {bins} {L.opt(None if op[3] is None else n(op[3]))} {L.opt(None if op[4] is None else n(op[4]))})"
     if k == "count_at":
         return f"(OCountAt {L.nat(op[1])} {n(op[2])})"
     if k == "quantile":
